@@ -72,7 +72,7 @@ def run(ctx):
         ctx.log("CORRUPTED record %d: merged.stale flipped" % k)
     inp = ctx.write_ndjson("states.ndjson", recs)
     trace = ctx.tmp("c08_trace.ndjson")
-    gr = ctx.go_test("tsdb", ["c08_planner_test.go"], "^TestVerifC08Planner$", env={"VERIF_IN": inp, "VERIF_C08_TRACE": trace})
+    gr = ctx.go_test("tsdb", ["c08_planner_test.go"], "^TestVerifC08Planner$", env={"VERIF_IN": inp, "VERIF_C08_TRACE": trace}, timeout="60m")
     ctx.absorb(gr, label="C08 replay")
     # legality of real plans (all that differ from the transcription + a sample) decided by the specification
     ntr = sum(1 for _ in open(trace)) if os.path.exists(trace) else 0
